@@ -332,3 +332,13 @@ func AliasOrPath(path string) string {
 	path = strings.TrimPrefix(path, ExecPrefix)
 	return path
 }
+
+// LoadedPaths lists the import paths of the packages loaded with syntax, sorted.
+func (p *Prog) LoadedPaths() []string {
+	var out []string
+	for path := range p.decls {
+		out = append(out, path)
+	}
+	sort.Strings(out)
+	return out
+}
